@@ -83,3 +83,17 @@ def _v31(repo, mod):
     fn = repo.func(SUB, "SubprocessTestCaseExecutor._execute_test_cases_in_subprocess")
     s = find_stmt(fn, lambda s: isinstance(s, ast.If) and "instrument" in norm(s.test))
     return delete_stmt(mod, s)
+
+
+@variant("C31", "relink-only-binding-positions", SUB, "C31.relink", "assertions re-added only at positions that bind a variable")
+def _v40(repo, mod):
+    fn = repo.func(SUB, "SubprocessTestCaseExecutor._fix_assertion_trace")
+    lp = find_stmt(fn, lambda s: isinstance(s, ast.For) and "all_assertions.items()" in norm(s.iter))
+    return replace_node(mod, lp, "for position in sorted(new_reference_bindings):\n            for assertion in all_assertions.get(position, ()):\n                assertion_trace.add_entry(position, assertion.clone(memo))")
+
+
+@variant("C31", "relink-without-renaming", SUB, "C31.relink", "assertions re-added with the child's variable names")
+def _v41(repo, mod):
+    fn = repo.func(SUB, "SubprocessTestCaseExecutor._fix_assertion_trace")
+    c = find_node(fn, lambda n: isinstance(n, ast.Call) and norm(n.func) == "assertion.clone")
+    return replace_node(mod, c, "assertion")
